@@ -151,6 +151,7 @@ type OpPlan struct {
 }
 
 type RefStore struct {
+	mockErrs bool // conflicts and misses are reported in the mock store's words ("revision mismatch", "key not found")
 	mu      sync.Mutex
 	tr      *Trace
 	ttl     time.Duration
@@ -443,6 +444,10 @@ func (c *Client) Update(key string, value []byte, exp uint64, opts ...interface{
 	var err error
 	if cur := s.lastSeq(key); cur != exp {
 		err = wrongSeq(cur)
+		if s.mockErrs {
+			// the dialect of the package's own mock store, which the library's error patterns treat as the same thing
+			err = errors.New("revision mismatch")
+		}
 		s.tr.logf("apply %d fail wrongseq", o.id)
 	} else {
 		rev = s.writeLocked(key, value)
@@ -488,6 +493,9 @@ func (c *Client) Get(key string) (leader.Entry, error) {
 	}
 	if e == nil {
 		s.tr.logf("ret %d err notfound", o.id)
+		if s.mockErrs {
+			return nil, errors.New("key not found")
+		}
 		return nil, nats.ErrKeyNotFound
 	}
 	s.tr.logf("ret %d ok %d %s", o.id, e.rev, s.tr.val(e.v))
